@@ -529,11 +529,13 @@ class Bits:
             offset = 0
 
         if isinstance(s, io.BytesIO):
+            if offset < 0 or (length is not None and length < 0):
+                raise bitstring.CreationError("The length and offset cannot be negative.")
             if length is None:
                 length = s.seek(0, 2) * 8 - offset
             byteoffset, offset = divmod(offset, 8)
             bytelength = (length + byteoffset * 8 + offset + 7) // 8 - byteoffset
-            if length + byteoffset * 8 + offset > s.seek(0, 2) * 8:
+            if length < 0 or length + byteoffset * 8 + offset > s.seek(0, 2) * 8:
                 raise bitstring.CreationError("BytesIO object is not long enough for specified length and offset.")
             self._bitstore = BitStore.frombytes(s.getvalue()[byteoffset: byteoffset + bytelength]).getslice(
                 offset, offset + length)
@@ -553,6 +555,8 @@ class Bits:
         with open(pathlib.Path(filename), 'rb') as source:
             if offset is None:
                 offset = 0
+            if offset < 0 or (length is not None and length < 0):
+                raise bitstring.CreationError("The length and offset cannot be negative.")
             m = mmap.mmap(source.fileno(), 0, access=mmap.ACCESS_READ)
             if offset == 0:
                 self._filename = source.name
@@ -563,9 +567,9 @@ class Bits:
             else:
                 # If offset is given then always read into memory.
                 temp = BitStore.frombuffer(m)
+                if offset > len(temp):
+                    raise bitstring.CreationError(f"The offset of {offset} bits is greater than the file length ({len(temp)} bits).")
                 if length is None:
-                    if offset > len(temp):
-                        raise bitstring.CreationError(f"The offset of {offset} bits is greater than the file length ({len(temp)} bits).")
                     self._bitstore = temp.getslice(offset, None)
                 else:
                     self._bitstore = temp.getslice(offset, offset + length)
@@ -575,6 +579,8 @@ class Bits:
     def _setbitarray(self, ba: bitarray.bitarray, length: Optional[int], offset: Optional[int]) -> None:
         if offset is None:
             offset = 0
+        if offset < 0 or (length is not None and length < 0):
+            raise bitstring.CreationError("The length and offset cannot be negative.")
         if offset > len(ba):
             raise bitstring.CreationError(f"Offset of {offset} too large for bitarray of length {len(ba)}.")
         if length is None:
@@ -628,12 +634,13 @@ class Bits:
         data = bytearray(data)
         if offset is None:
             offset = 0
+        if offset < 0 or (length is not None and length < 0):
+            raise bitstring.CreationError("The length and offset cannot be negative.")
         if length is None:
             # Use to the end of the data
             length = len(data) * 8 - offset
-        else:
-            if length + offset > len(data) * 8:
-                raise bitstring.CreationError(f"Not enough data present. Need {length + offset} bits, have {len(data) * 8}.")
+        if length + offset > len(data) * 8 or length < 0:
+            raise bitstring.CreationError(f"Not enough data present. Need {length + offset} bits, have {len(data) * 8}.")
         self._bitstore = BitStore.frombytes(data).getslice_msb0(offset, offset + length)
 
     def _getbytes(self) -> bytes:
